@@ -33,6 +33,7 @@ LIST_DOCS = [   # authored-loose / authored-tight lists whose items hold several
     ("loose_nested", "- a\n  - x\n\n- b\n  - y\n"), ("loose_quote_in_item", "1. a\n   > q\n\n2. b\n"), ("loose_code_in_item", "- a\n  ```\n  c\n  ```\n\n- b\n"),
     ("tight_nested", "- a\n  - x\n- b\n  - y\n"), ("loose_multi_para", "- a\n\n  second\n\n- b\n"), ("in_quote", "> - a\n>   - x\n>\n> - b\n"),
     ("loose_single", "- a\n\n- b\n\n- c\n"), ("tight_single", "* a\n* b\n* c\n"), ("mixed_depth", "1. one\n   - in one\n\n     para\n2. two\n"),
+    ("empty_item", "- a\n-\n- b\n"), ("empty_item_loose", "- a\n\n-\n\n- b\n"), ("empty_first", "-\n- a\n- b\n"), ("empty_ordered", "1. a\n2.\n3. c\n"),
     ("footnote_list", "x[^1]\n\n[^1]: note\n\n    - f a\n\n    - f b\n"), ("task_loose", "- [ ] a\n\n- [x] b\n"), ("three_levels", "- a\n  - b\n    - c\n\n    - d\n  - e\n- f\n"),
 ]
 ITEM_RE = re.compile(r"^(?:[-*+]|\d+[.)])(?: |$)")
@@ -69,7 +70,7 @@ def lists_of(tree):
 
     def walk(b):
         if b[0] == "list":
-            out.append(dict(n=len(b[4]), single=all(len(li[1]) == 1 for li in b[4]), tight=bool(b[3])))
+            out.append(dict(n=len(b[4]), single=all(len(li[1]) <= 1 for li in b[4]), tight=bool(b[3])))
             for li in b[4]:
                 for c in li[1]:
                     walk(c)
